@@ -138,7 +138,8 @@ func (r *rewriter) rewriteFile() {
 	pre := func(c *astutil.Cursor) bool {
 		switch n := c.Node().(type) {
 		case *ast.SelectStmt:
-			fatal("%s: select statement is not supported by the controlled scheduler", r.fset.Position(n.Pos()))
+			c.Replace(r.selectStmt(n))
+			r.count++
 		case *ast.RangeStmt:
 			if r.isChan(n.X) {
 				c.Replace(r.rangeChan(n))
@@ -279,6 +280,71 @@ func (r *rewriter) rangeChan(n *ast.RangeStmt) ast.Stmt {
 		Post: &ast.AssignStmt{Lhs: []ast.Expr{key, ok}, Tok: token.ASSIGN, Rhs: []ast.Expr{method(n.X, "Recv2")}},
 		Body: n.Body,
 	}
+}
+
+// selectStmt turns
+//
+//	select { case v := <-c: A; case d <- x: B; default: C }
+//
+// into
+//
+//	switch vsched.Select(true, c.CaseRecv(), d.CaseSend(x)) { case 0: v := c.SelRecv(); A; case 1: B; default: C }
+func (r *rewriter) selectStmt(n *ast.SelectStmt) ast.Stmt {
+	var cases []ast.Expr
+	var clauses []ast.Stmt
+	hasDefault := "false"
+	simple := func(e ast.Expr) ast.Expr {
+		switch e.(type) {
+		case *ast.Ident, *ast.SelectorExpr:
+			return e
+		}
+		fatal("%s: select on a channel expression that is not a plain name is not supported", r.fset.Position(e.Pos()))
+		return nil
+	}
+	for _, cl := range n.Body.List {
+		cc := cl.(*ast.CommClause)
+		if cc.Comm == nil {
+			hasDefault = "true"
+			clauses = append(clauses, &ast.CaseClause{List: nil, Body: cc.Body})
+			continue
+		}
+		idx := &ast.BasicLit{Kind: token.INT, Value: strconv.Itoa(len(cases))}
+		body := cc.Body
+		switch st := cc.Comm.(type) {
+		case *ast.SendStmt:
+			cases = append(cases, method(simple(st.Chan), "CaseSend", st.Value))
+		case *ast.ExprStmt: // <-c
+			u, ok := st.X.(*ast.UnaryExpr)
+			if !ok || u.Op != token.ARROW {
+				fatal("%s: unsupported select clause", r.fset.Position(st.Pos()))
+			}
+			cases = append(cases, method(simple(u.X), "CaseRecv"))
+		case *ast.AssignStmt: // v := <-c ; v, ok := <-c ; v = <-c
+			u, ok := st.Rhs[0].(*ast.UnaryExpr)
+			if !ok || u.Op != token.ARROW {
+				fatal("%s: unsupported select clause", r.fset.Position(st.Pos()))
+			}
+			ch := simple(u.X)
+			cases = append(cases, method(ch, "CaseRecv"))
+			name := "SelRecv"
+			if len(st.Lhs) == 2 {
+				name = "SelRecv2"
+			}
+			assign := &ast.AssignStmt{Lhs: st.Lhs, Tok: st.Tok, Rhs: []ast.Expr{method(ch, name)}}
+			body = append([]ast.Stmt{assign}, body...)
+			// keep "declared and not used" away when the body ignores the variable
+			for _, l := range st.Lhs {
+				if id, ok := l.(*ast.Ident); ok && id.Name != "_" && st.Tok == token.DEFINE {
+					body = append(body[:1], append([]ast.Stmt{&ast.AssignStmt{Lhs: []ast.Expr{ast.NewIdent("_")}, Tok: token.ASSIGN, Rhs: []ast.Expr{ast.NewIdent(id.Name)}}}, body[1:]...)...)
+				}
+			}
+		default:
+			fatal("%s: unsupported select clause", r.fset.Position(cc.Pos()))
+		}
+		clauses = append(clauses, &ast.CaseClause{List: []ast.Expr{idx}, Body: body})
+	}
+	args := append([]ast.Expr{ast.NewIdent(hasDefault)}, cases...)
+	return &ast.SwitchStmt{Tag: call(vs("Select"), args...), Body: &ast.BlockStmt{List: clauses}}
 }
 
 func (r *rewriter) goStmt(n *ast.GoStmt) ast.Stmt {
